@@ -69,7 +69,7 @@ type maskSpec struct {
 // paths, type preserved under Type) must pass against it and write nothing; D3
 // (differs at one unmasked leaf) must fail with exactly one Error and write nothing.
 func checkC16(c *vkit.Ctx) {
-	c.P.Rule = "case = (document, 1-3 masked paths each with Any / Type of the value's type / accepting Custom, entry point MatchJSON|MatchStandaloneJSON|MatchYAML); D2 re-draws every masked value (same JSON kind, different content incl. non-ASCII and quotes), D3 changes one leaf that is neither under nor above a masked path; record D1, then D2 must pass and write nothing, D3 must produce exactly one Error with update disabled and write nothing; non-trivial = every judged triple; distinct by hash(document, masks, api)"
+	c.P.Rule = "case = (document, 1-3 masked paths each with Any / Type of the value's type / accepting Custom, entry point MatchJSON|MatchStandaloneJSON|MatchYAML); D2 re-draws every masked value (same JSON kind, different content incl. non-ASCII and quotes; in one case of eight a lenient Any lists a masked path followed by a member below it and D2's masked value is an object that has that member), D3 changes one leaf that is neither under nor above a masked path; record D1, then D2 must pass and write nothing, D3 must produce exactly one Error with update disabled and write nothing; non-trivial = every judged triple; distinct by hash(document, masks, api)"
 	n := c.N(50000, 1500000)
 	for i := 0; i < n; i++ {
 		if !c.Mine(i) {
@@ -98,6 +98,10 @@ func runC16(c *vkit.Ctx, r *rand.Rand, i int) {
 	var masked []vkit.JPath
 	var specs []maskSpec
 	d2 := d1.Clone()
+	// nest: one lenient Any lists a masked path and, after it, a member below it; in D2 the
+	// masked value is an object that has that member (a change below a masked path)
+	nest := r.IntN(8) == 0
+	nestPath := ""
 	nm := 1 + r.IntN(3)
 	for k := 0; k < nm; k++ {
 		p, ok := pickPath(r, d1, func(p vkit.JPath) bool {
@@ -116,6 +120,9 @@ func runC16(c *vkit.Ctx, r *rand.Rand, i int) {
 		}
 		target := d1.At(p)
 		kind := pick2(r, "any", "type", "custom")
+		if nest && k == 0 {
+			kind = "any"
+		}
 		if target.Kind == "null" && kind == "type" {
 			kind = "any"
 		}
@@ -126,12 +133,16 @@ func runC16(c *vkit.Ctx, r *rand.Rand, i int) {
 				kind = "any"
 			}
 		}
-		d2.Set(p, nv)
-		masked = append(masked, p)
 		ps := p.GJSON()
 		if yaml {
 			ps = p.YAMLPath()
 		}
+		if nest && k == 0 {
+			nv = &vkit.JNode{Kind: "obj", Keys: []string{"zzchild"}, Vals: []*vkit.JNode{{Kind: "str", S: "inner value"}}}
+			nestPath = ps + ".zzchild"
+		}
+		d2.Set(p, nv)
+		masked = append(masked, p)
 		var ph any = pick2[any](r, "<masked>", "<masked>", "<mäsked>", "m \"q\"", 0, nil, "x")
 		if r.IntN(5) == 0 {
 			// a string placeholder that reads like one of the masked values (`"5"` over 5,
@@ -198,14 +209,18 @@ func runC16(c *vkit.Ctx, r *rand.Rand, i int) {
 	snaps.VerifSetNoColor(true)
 	// matchers are built ONCE and reused for every call of the case, the way a
 	// package-level matcher variable or a table-driven test uses them
-	lenient := r.IntN(3) == 0
-	group := r.IntN(2) == 0
+	lenient := r.IntN(3) == 0 || nestPath != ""
+	group := r.IntN(2) == 0 || nestPath != ""
 	var jms []match.JSONMatcher
 	var yms []match.YAMLMatcher
 	var anyPaths []string
 	for k, s := range specs {
 		if group && s.Kind == "any" {
 			anyPaths = append(anyPaths, s.PathS)
+			if k == 0 && nestPath != "" {
+				anyPaths = append(anyPaths, nestPath)
+				c.Count("lenient_any_listing_a_masked_path_and_a_member_below_it", 1)
+			}
 			continue
 		}
 		ms := mSpec{Kind: s.Kind, PathS: s.PathS, PH: s.PH, Lenient: lenient}
